@@ -176,6 +176,11 @@ func c15Run(c *ev.Ctx) {
 			}
 			return int(free) // 0 = nothing fits any more: skip the insert
 		}
+		// an object that ends 1-4 bytes behind the usable space (where the block's checksum
+		// goes): it must be refused by this block, never stored there
+		if overshoot && plan <= 2 && free > 0 && free <= 64 && r.Bool() {
+			return int(free) + r.Range(1, 4)
+		}
 		switch plan {
 		case 0:
 			return clamp(r.Range(1, 64))
